@@ -329,37 +329,43 @@ def c13b(prog, rep):
     if not rep.check(avx is not None and len(gen) == 1, R, "anchor:identifier-end-routines", "find_identifier_end_avx2 / generic closure not found"):
         return
     gen = gen[0]
-    avx_bytes = sorted({v for k, v in consts_in(avx) if k == "int" and 32 < v < 128})
-    # range_mask is called with RangeInclusive::new(lo, hi); underscore via set1_epi8(95)
-    ranges = []
-    for c in avx.calls_to("core::ops::range::RangeInclusive::new"):
-        a = c.args
-        if a[0]["k"] == "const" and a[1]["k"] == "const":
-            ranges.append((a[0].get("int"), a[1].get("int")))
-    ranges = sorted(ranges)
-    rep.check(ranges == [(48, 57), (65, 90), (97, 122)], R, "avx2-ranges", "AVX2 identifier ranges are %s (expected 0-9, A-Z, a-z)" % ranges, instance={"ranges": ranges})
-    rep.check(95 in avx_bytes, R, "avx2-underscore", "AVX2 routine no longer tests '_' (95): constants %s" % avx_bytes)
+    # The scalar predicate, evaluated on every ASCII character and on non-ASCII probes
+    from table import Table, TooComplex, run_concrete, eval_desc, vdesc, Unknown
+    import simd
+    scalar, serr = None, None
+    cp = [i for i in range(1, gen.arg_count + 1) if gen.locals[i]["ty"].replace("&", "").strip() == "char"]
+    try:
+        tb = Table(prog, gen, inline=1)
+        scalar = set()
+        for ch in list(range(128)) + [0x80, 0xE9, 0x2003, 0x3000, 0x3001, 0x1F600]:
+            res, _ = run_concrete(tb, {"arg%d" % cp[0]: ch})
+            if bool(eval_desc(vdesc(res), {"arg%d" % cp[0]: ch})):
+                scalar.add(ch)
+    except (TooComplex, Unknown, IndexError, KeyError, TypeError) as e:
+        serr = str(e)
+    want = {ord(c) for c in "abcdefghijklmnopqrstuvwxyzABCDEFGHIJKLMNOPQRSTUVWXYZ0123456789_"}
+    rep.check(scalar is not None and {c for c in scalar if c < 128} == want and {0x80, 0xE9, 0x2003, 0x3001, 0x1F600} <= scalar and 0x3000 not in scalar, R, "generic-char-constants",
+              "the scalar identifier predicate does not accept exactly [A-Za-z0-9_] and every non-ASCII character but U+3000: %s" % (serr or sorted(hex(c) for c in (scalar ^ want) if c < 128)[:6]),
+              instance={"ascii_accepted": "".join(chr(c) for c in sorted(c for c in (scalar or ()) if c < 128)), "probes": 134})
     gchars = sorted({v for k, v in consts_in(gen, ("char",))})
-    want = sorted([ord(c) for c in "azAZ09_"] + [0x80, 0x3000])
-    rep.check(gchars == want, R, "generic-char-constants", "the scalar identifier predicate tests characters %s (expected a z A Z 0 9 _ U+0080 U+3000)" % [hex(c) for c in gchars],
-              instance={"chars": [hex(c) for c in gchars]})
-    ascii_generic = sorted(c for c in gchars if c < 128)
-    ascii_avx = sorted({x for r in ranges for x in r} | {95})
-    rep.check(ascii_generic == ascii_avx, R, "AGREE:avx2=generic(ascii)", "AVX2 and scalar routines disagree on ASCII identifier characters: %s vs %s" % (ascii_avx, ascii_generic),
-              instance={"avx2": ascii_avx, "generic": ascii_generic})
+    # The vector scanner, read per byte lane (simd.py): which ASCII bytes its step mask takes for identifier bytes
+    cl = simd.classification(prog)
+    if rep.check(cl is not None and cl["accepts"] is not None and cl["polarity"] is not None, R, "avx2-classification", "the byte classification of the AVX2 routine cannot be read off its movemask operand: %s"
+                 % (cl and (cl["error"] or "steps=%d polarity=%s" % (len(cl["step"]), cl["polarity"])))):
+        acc = cl["accepts"]
+        rep.check(scalar is not None and acc == {c for c in scalar if c < 128}, R, "AGREE:avx2=generic(ascii)",
+                  "AVX2 and scalar routines disagree on ASCII identifier characters: only one of them accepts %s" % sorted(repr(chr(c)) for c in (acc ^ {c for c in (scalar or ()) if c < 128}))[:8],
+                  instance={"avx2": "".join(chr(c) for c in sorted(acc)), "polarity": cl["polarity"]})
     # AVX2 defers to the scalar routine for the tail and on any non-ASCII byte
     tails = avx.calls_to(LX + "find_identifier_end_generic")
     rep.check(len(tails) == 1, R, "avx2-tail=generic", "the AVX2 routine does not finish with find_identifier_end_generic")
-    nonascii = avx.calls_to(LX + "find_identifier_end_avx2::any_non_ascii")
-    ok = len(nonascii) == 1
-    if ok and tails:
-        # the true edge of any_non_ascii leaves the chunk loop towards the scalar tail without advancing
-        t = avx.blocks[nonascii[0].t["target"]]["term"]
-        ok = t["k"] == "switch"
+    ok = False
+    if cl is not None and tails:
+        ok, guard = simd.guard_ok(cl)
         if ok:
-            true_tgt = t["otherwise"] if [v for v, _ in t["targets"]] == [0] else None
-            ok = true_tgt is not None and tails[0].bb in avx.reach_from(true_tgt, include_start=True) and \
-                not any(true_tgt in L and tails[0].bb in L for L in avx.loops().values())
+            # leaving the loop on that test leads to the scalar routine, at the unchanged offset of the chunk
+            ok = any(tails[0].bb in avx.reach_from(y, avoid=set(avx.loops()), include_start=True) for y in avx.reach_from(guard.bb, include_start=True)
+                     if not any(y in L for L in avx.loops().values()))
     rep.check(ok, R, "avx2-non-ascii=>generic", "a chunk containing a non-ASCII byte is not handed to the scalar routine")
     # the lexer's start-byte map agrees: identifier start ranges
     cm = prog.const_arrays.get(LX + "COMMON_LEXER_MAP")
